@@ -1,3 +1,7 @@
+(* ADDED IN THE THIRD ROUND (Unified1-3.v): the two invariants are merged — FInv covers append, clear AND reopen, so histories mixing
+   clears with reopen are now proved (C01_history_with_clears_and_reopen, C01_fresh_history_with_clears_and_reopen, C01_unified_invariant_*,
+   C01_reopen_changes_no_observation_with_clears); the remark 'NOT proved: histories mixing clears WITH reopen' below is superseded.
+   ---- header of the earlier rounds: ---- *)
 (* C01 — log contents equal an append-only list model (pinned statements, generated from the types Coq reports;
    proofs in Refine.v, Reopen.v, ClearRefine.v, StorageFacts.v, OffsetFacts.v, TreeRef.v, CoreFacts.v).
    PROVED END TO END, from the creation of a writer and for EVERY sequence of flush decisions:
@@ -21,6 +25,7 @@
    NOT proved: histories mixing clears WITH reopen (the two invariants are not yet merged). That combination is decided on
    every run by tools/c01.py under the list-model oracle, with the model executed side by side. *)
 From HC Require Import Base NMap Codec Crypto FlatTree Storage Bitfield Oplog Merkle Core OplogFacts StorageFacts OffsetFacts TreeRef CoreFacts Refine ClearRefine Reopen.
+From HC Require Import Unified1 Unified2 Unified3.
 
 Theorem C01_fresh_history_with_reopen :
   forall cr : crypto,
@@ -332,6 +337,213 @@ Theorem C01_append_journal_order :
            (fl = [] \/ flush_shape fl).
 Proof. exact append_journal_order. Qed.
 
+Theorem C01_history_with_clears_and_reopen :
+  forall cr : crypto,
+         crc_ok cr ->
+         (forall x : bytes, Datatypes.length (cr_hash cr x) = 32%nat) ->
+         (forall x : bytes, all_zero (cr_hash cr x) = false) ->
+         (forall x : bytes, bytes_ok (cr_hash cr x) = true) ->
+         (forall sk m : bytes, Datatypes.length (cr_sign cr sk m) = 64%nat) ->
+         (forall sk m : bytes, bytes_ok (cr_sign cr sk m) = true) ->
+         forall (ops : list uop) (c : core) (d : disk) (j : list sop) (ev : list event) 
+           (bs : list bytes) (cl : N -> bool) (sk : bytes),
+         FInv cr c d bs cl ->
+         kp_secret (c_keypair c) = Some sk ->
+         wf_u ops (N.of_nat (Datatypes.length bs)) ->
+         sumN (map len (bs ++ uappended ops)) <= u64_max ->
+         NODE_SIZE * (2 * N.of_nat (Datatypes.length (bs ++ uappended ops))) <= u64_max ->
+         urun cr ops c {| w_disk := d; w_journal := j; w_events := ev |} = uspec ops bs cl \/
+         (exists k : nat,
+            urun cr ops c {| w_disk := d; w_journal := j; w_events := ev |} =
+            firstn k (uspec ops bs cl) ++ [UOAppend (Panic frame_msg)]).
+Proof. exact history_unified. Qed.
+
+Theorem C01_fresh_history_with_clears_and_reopen :
+  forall cr : crypto,
+         crc_ok cr ->
+         (forall x : bytes, Datatypes.length (cr_hash cr x) = 32%nat) ->
+         (forall x : bytes, all_zero (cr_hash cr x) = false) ->
+         (forall x : bytes, bytes_ok (cr_hash cr x) = true) ->
+         (forall sk m : bytes, Datatypes.length (cr_sign cr sk m) = 64%nat) ->
+         (forall sk m : bytes, bytes_ok (cr_sign cr sk m) = true) ->
+         forall (kp : keypair) (sk : bytes) (ops : list uop),
+         keypair_ok kp = true ->
+         kp_secret kp = Some sk ->
+         wf_u ops 0 ->
+         sumN (map len (uappended ops)) <= u64_max ->
+         NODE_SIZE * (2 * N.of_nat (Datatypes.length (uappended ops))) <= u64_max ->
+         exists (d0 : disk) (ops0 : list sop) (c0 : core),
+           core_open cr (Some kp) false disk_empty = (d0, ops0, Ok c0) /\
+           (urun cr ops c0 {| w_disk := d0; w_journal := []; w_events := [] |} =
+            uspec ops [] (fun _ : N => false) \/
+            (exists k : nat,
+               urun cr ops c0 {| w_disk := d0; w_journal := []; w_events := [] |} =
+               firstn k (uspec ops [] (fun _ : N => false)) ++ [UOAppend (Panic frame_msg)])).
+Proof. exact fresh_history_unified. Qed.
+
+Theorem C01_fresh_history_no_frame_panic :
+  forall cr : crypto,
+         crc_ok cr ->
+         (forall x : bytes, Datatypes.length (cr_hash cr x) = 32%nat) ->
+         (forall x : bytes, all_zero (cr_hash cr x) = false) ->
+         (forall x : bytes, bytes_ok (cr_hash cr x) = true) ->
+         (forall sk m : bytes, Datatypes.length (cr_sign cr sk m) = 64%nat) ->
+         (forall sk m : bytes, bytes_ok (cr_sign cr sk m) = true) ->
+         forall (kp : keypair) (sk : bytes) (ops : list uop),
+         keypair_ok kp = true ->
+         kp_secret kp = Some sk ->
+         wf_u ops 0 ->
+         sumN (map len (uappended ops)) <= u64_max ->
+         NODE_SIZE * (2 * N.of_nat (Datatypes.length (uappended ops))) <= u64_max ->
+         exists (d0 : disk) (ops0 : list sop) (c0 : core),
+           core_open cr (Some kp) false disk_empty = (d0, ops0, Ok c0) /\
+           (~
+            In (UOAppend (Panic frame_msg))
+              (urun cr ops c0 {| w_disk := d0; w_journal := []; w_events := [] |}) ->
+            urun cr ops c0 {| w_disk := d0; w_journal := []; w_events := [] |} =
+            uspec ops [] (fun _ : N => false)).
+Proof. exact fresh_history_unified_no_frame_panic. Qed.
+
+Theorem C01_unified_invariant_at_creation :
+  forall cr : crypto,
+         crc_ok cr ->
+         (forall x : bytes, Datatypes.length (cr_hash cr x) = 32%nat) ->
+         (forall x : bytes, all_zero (cr_hash cr x) = false) ->
+         (forall x : bytes, bytes_ok (cr_hash cr x) = true) ->
+         forall kp : keypair,
+         keypair_ok kp = true ->
+         exists (d' : disk) (ops : list sop) (c : core),
+           core_open cr (Some kp) false disk_empty = (d', ops, Ok c) /\
+           FInv cr c d' [] (fun _ : N => false) /\ c_keypair c = kp.
+Proof. exact FInv_init. Qed.
+
+Theorem C01_unified_invariant_append :
+  forall cr : crypto,
+         crc_ok cr ->
+         (forall x : bytes, Datatypes.length (cr_hash cr x) = 32%nat) ->
+         (forall x : bytes, all_zero (cr_hash cr x) = false) ->
+         (forall x : bytes, bytes_ok (cr_hash cr x) = true) ->
+         (forall sk m : bytes, Datatypes.length (cr_sign cr sk m) = 64%nat) ->
+         (forall sk m : bytes, bytes_ok (cr_sign cr sk m) = true) ->
+         forall (f : option bool) (batch : list bytes) (c : core) (d : disk) (j : list sop) 
+           (ev : list event) (bs : list bytes) (cl : N -> bool) (sk : bytes) (c' : core) 
+           (w' : world) (r : res (N * N)),
+         FInv cr c d bs cl ->
+         kp_secret (c_keypair c) = Some sk ->
+         sumN (map len (bs ++ batch)) <= u64_max ->
+         NODE_SIZE * (2 * N.of_nat (Datatypes.length (bs ++ batch))) <= u64_max ->
+         core_append cr f batch c {| w_disk := d; w_journal := j; w_events := ev |} = (c', w', r) ->
+         r = Panic frame_msg \/
+         r = Ok (N.of_nat (Datatypes.length (bs ++ batch)), sumN (map len (bs ++ batch))) /\
+         FInv cr c' (w_disk w') (bs ++ batch) (cl_mask cl (N.of_nat (Datatypes.length bs))) /\
+         c_keypair c' = c_keypair c.
+Proof. exact append_FInv. Qed.
+
+Theorem C01_unified_invariant_clear :
+  forall cr : crypto,
+         crc_ok cr ->
+         (forall x : bytes, Datatypes.length (cr_hash cr x) = 32%nat) ->
+         (forall x : bytes, all_zero (cr_hash cr x) = false) ->
+         (forall x : bytes, bytes_ok (cr_hash cr x) = true) ->
+         forall (f : option bool) (c : core) (d : disk) (j : list sop) (ev : list event) 
+           (bs : list bytes) (cl : N -> bool) (start end_ : N) (c' : core) (w' : world) 
+           (r : res unit),
+         let n := N.of_nat (Datatypes.length bs) in
+         FInv cr c d bs cl ->
+         start < n ->
+         start < end_ ->
+         end_ <= u64_max ->
+         core_clear cr f start end_ c {| w_disk := d; w_journal := j; w_events := ev |} = (c', w', r) ->
+         r = Ok tt /\ FInv cr c' (w_disk w') bs (cl_clear cl start end_) /\ c_keypair c' = c_keypair c.
+Proof. exact clear_FInv. Qed.
+
+Theorem C01_unified_invariant_reopen :
+  forall cr : crypto,
+         crc_ok cr ->
+         (forall x : bytes, Datatypes.length (cr_hash cr x) = 32%nat) ->
+         (forall x : bytes, all_zero (cr_hash cr x) = false) ->
+         (forall x : bytes, bytes_ok (cr_hash cr x) = true) ->
+         forall (c : core) (d : disk) (bs : list bytes) (cl : N -> bool),
+         FInv cr c d bs cl ->
+         exists c' : core,
+           core_open cr None true d = (d, [], Ok c') /\ FInv cr c' d bs cl /\ c_keypair c' = c_keypair c.
+Proof. exact reopen_FInv. Qed.
+
+Theorem C01_reopen_changes_no_observation_with_clears :
+  forall cr : crypto,
+         crc_ok cr ->
+         (forall x : bytes, Datatypes.length (cr_hash cr x) = 32%nat) ->
+         (forall x : bytes, all_zero (cr_hash cr x) = false) ->
+         (forall x : bytes, bytes_ok (cr_hash cr x) = true) ->
+         forall (c : core) (d : disk) (bs : list bytes) (cl : N -> bool),
+         FInv cr c d bs cl ->
+         exists c' : core,
+           core_open cr None true d = (d, [], Ok c') /\
+           FInv cr c' d bs cl /\
+           c_keypair c' = c_keypair c /\
+           core_info c' = core_info c /\
+           (forall i : N, core_has c' i = core_has c i) /\
+           (forall (i : N) (j : list sop) (ev : list event),
+            snd (core_get i c' {| w_disk := d; w_journal := j; w_events := ev |}) =
+            snd (core_get i c {| w_disk := d; w_journal := j; w_events := ev |}) /\
+            snd (fst (core_get i c' {| w_disk := d; w_journal := j; w_events := ev |})) =
+            snd (fst (core_get i c {| w_disk := d; w_journal := j; w_events := ev |}))).
+Proof. exact reopen_observations_U. Qed.
+
+Theorem C01_clear_outside_also_after_reopen :
+  forall cr : crypto,
+         crc_ok cr ->
+         (forall x : bytes, Datatypes.length (cr_hash cr x) = 32%nat) ->
+         (forall x : bytes, all_zero (cr_hash cr x) = false) ->
+         (forall x : bytes, bytes_ok (cr_hash cr x) = true) ->
+         forall (f : option bool) (c : core) (d : disk) (j : list sop) (ev : list event) 
+           (bs : list bytes) (cl : N -> bool) (start end_ : N) (c' : core) (d' : disk) 
+           (j' : list sop) (ev' : list event) (i : N),
+         let n := N.of_nat (Datatypes.length bs) in
+         FInv cr c d bs cl ->
+         start < n ->
+         start < end_ ->
+         end_ <= u64_max ->
+         core_clear cr f start end_ c {| w_disk := d; w_journal := j; w_events := ev |} =
+         (c', {| w_disk := d'; w_journal := j'; w_events := ev' |}, Ok tt) ->
+         i < start \/ end_ <= i ->
+         exists c'' : core,
+           core_open cr None true d' = (d', [], Ok c'') /\
+           core_has c' i = core_has c i /\
+           core_has c'' i = core_has c i /\
+           (forall (j1 : list sop) (ev1 : list event) (j2 : list sop) (ev2 : list event),
+            snd (core_get i c' {| w_disk := d'; w_journal := j1; w_events := ev1 |}) =
+            snd (core_get i c {| w_disk := d; w_journal := j2; w_events := ev2 |}) /\
+            snd (core_get i c'' {| w_disk := d'; w_journal := j1; w_events := ev1 |}) =
+            snd (core_get i c {| w_disk := d; w_journal := j2; w_events := ev2 |})).
+Proof. exact clear_outside_U. Qed.
+
+Theorem C01_get_unified :
+  forall (cr : crypto) (c : core) (d : disk) (bs : list bytes) (cl : N -> bool) 
+           (j : list sop) (ev : list event) (i : N),
+         FInv cr c d bs cl ->
+         core_get i c {| w_disk := d; w_journal := j; w_events := ev |} =
+         (if held (N.of_nat (Datatypes.length bs)) cl i
+          then (c, {| w_disk := d; w_journal := j; w_events := ev |}, Ok (Some (nth (N.to_nat i) bs [])))
+          else (c, {| w_disk := d; w_journal := j; w_events := EvGet i :: ev |}, Ok None)).
+Proof. exact get_correct_U. Qed.
+
+Theorem C01_info_unified :
+  forall (cr : crypto) (c : core) (d : disk) (bs : list bytes) (cl : N -> bool),
+         FInv cr c d bs cl ->
+         core_info c =
+         {|
+           i_length := N.of_nat (Datatypes.length bs);
+           i_byte_length := sumN (map len bs);
+           i_contiguous := spec_contig bs cl;
+           i_fork := 0;
+           i_writeable := match kp_secret (c_keypair c) with
+                          | Some _ => true
+                          | None => false
+                          end
+         |}.
+Proof. exact info_correct_U. Qed.
+
 Print Assumptions C01_fresh_history_with_reopen.
 Print Assumptions C01_history_with_reopen.
 Print Assumptions C01_reopen_changes_no_observation.
@@ -359,3 +571,17 @@ Print Assumptions toy_history_with_reopen.
 Print Assumptions toy_history_c.
 Print Assumptions blank_hash_breaks_reads.
 Print Assumptions stranded_empty_block_clear_ok.
+Print Assumptions C01_history_with_clears_and_reopen.
+Print Assumptions C01_fresh_history_with_clears_and_reopen.
+Print Assumptions C01_fresh_history_no_frame_panic.
+Print Assumptions C01_unified_invariant_at_creation.
+Print Assumptions C01_unified_invariant_append.
+Print Assumptions C01_unified_invariant_clear.
+Print Assumptions C01_unified_invariant_reopen.
+Print Assumptions C01_reopen_changes_no_observation_with_clears.
+Print Assumptions C01_clear_outside_also_after_reopen.
+Print Assumptions C01_get_unified.
+Print Assumptions C01_info_unified.
+Print Assumptions Unified3.toy_history_unified.
+Print Assumptions Unified3.toy_clear_reopen_reads.
+Print Assumptions Unified3.toy_unified_hypotheses.
